@@ -276,7 +276,7 @@ def _eval_ops(cases):
                                   domain=('clear' if (clearf and clearg) else 'f-clear' if clearf else 'saturating') if lawful
                                   else ('signed' if dtype not in UNSIGNED and dtype != 'bool' else 'user-elem'),
                                   out=('+'.join(n for n, c in (('fresh-dirty', case.get('outbuf')), ('alias-f', case.get('alias'))) if c) or 'none'),
-                                  adjunction=pl.get('adjunction', tag_adj), proved_laws=pl.get('proved_laws', 'statement'))))
+                                  size=case.get('size', 'small'), adjunction=pl.get('adjunction', tag_adj), proved_laws=pl.get('proved_laws', 'statement'))))
     return res
 
 
@@ -343,7 +343,7 @@ def _eval_subm(case):
     lo, hi = gen.dt_range(dtype)
     sat = sum(1 for x, y in zip(alla, allb) if not (lo <= x - y <= hi))
     return dict(findings=fnd, n=len(alla), nontrivial_n=sat, nontrivial=False, sig=None,
-                tags=dict(kind=case['block'], dtype=dtype, layout=layout, out=mode))
+                tags=dict(kind=case['block'], dtype=dtype, layout=layout, out=mode, size=case.get('size', 'small')))
 
 
 def evaluate(cases):
@@ -494,6 +494,46 @@ def _subm_rand(rng, dtype, n):
     return a, b
 
 
+def _threshold_cases(rng, tier):
+    """SIZE-THRESHOLD stream: open/close/top-hats/conditional operators on 65537-element and 257 x 256 images and subm on
+    65537-element arrays (element count / row length crossing 2^8, 2^15, 2^16), cross and 3x3 box, with and without out=;
+    judged by the Lean driver like the small cases (it handles 65k pixels in under a second)."""
+    import mahotas as mh
+    plans = [('uint8', [65537], 'cross'), ('bool', [257, 256], 'box'), ('int16', [1, 65537], 'cross'), ('uint16', [256, 257], 'box'),
+             ('bool', [65537], 'cross'), ('uint8', [32769, 2], 'box')]
+    if tier == 'quick':
+        plans = rng.sample(plans, 2)
+    out = []
+    for dtype, shape, el in plans:
+        lo, hi = gen.dt_range(dtype)
+        n = int(np.prod(shape))
+        nd = len(shape)
+        if dtype == 'bool':
+            f = [1 if rng.random() < 0.6 else 0 for _ in range(n)]
+            g = [1 if rng.random() < 0.6 else 0 for _ in range(n)]
+        else:
+            base = rng.randint(max(lo, -50) + 2, 60)
+            f = [base + rng.randint(0, 9) for _ in range(n)]
+            g = [base + rng.randint(0, 9) for _ in range(n)]
+        if el == 'cross':
+            Bc = mh.get_structuring_elem(np.zeros((3,) * nd, np.uint8), None)
+            bshape, bc = list(Bc.shape), _ints(Bc)
+        else:
+            bshape, bc = [3] * nd, [1] * 3 ** nd
+        case = dict(dtype=dtype, shape=shape, f=f, g=g, bshape=bshape, bc=bc, n=2, layout=rng.choice(['C', 'F', 'strided']),
+                    layoutg='C', elem=('cross' if el == 'cross' else 'box'), pair='unrelated', usenone=(el == 'cross'), size='threshold')
+        if rng.random() < 0.5:
+            case['outbuf'] = [rng.randint(lo, hi) for _ in range(8)]
+        if rng.random() < 0.5:
+            case['alias'] = True
+        out.append(case)
+    for dtype in (['uint8', 'int16'] if tier == 'quick' else ['uint8', 'int16', 'uint16', 'int8', 'uint64']):
+        a, b = _subm_rand(rng, dtype, 65537)
+        out.append(dict(block='subm-rand', dtype=dtype, a=a, b=b, layout='C', outmode=rng.choice(['none', 'alias-a', 'fresh-dirty']),
+                        size='threshold'))
+    return out
+
+
 def cases(rng, tier):
     out = list(_corpus()) if tier != 'search' else []
     nops = dict(quick=1800, thorough=40000, search=8000)[tier]
@@ -516,6 +556,7 @@ def cases(rng, tier):
                             outmode=rng.choice(['none', 'none', 'alias-a', 'alias-a', 'fresh-dirty', 'alias-b'])))
     for _ in range(nops):
         out.append(_ops_case(rng))
+    out.extend(_threshold_cases(rng, tier))
     return out
 
 
